@@ -303,7 +303,7 @@ func realLexesAsIdentifier(word string) bool {
 
 func runC13(seed uint64, n int, tier string, outDir string) []*Stats {
 	r := NewRng(seed)
-	cf := NewCoqFile("From V Require Import Common.Base C13.KwSpec C13.Token C13.LexSpec C13.Harness.")
+	cf := NewCoqFile("From V Require Import Common.Base C13.KwSpec C13.Token C13.LexSpec C13.ParseSpec C13.Harness.")
 	st := NewStats("c13", seed)
 
 	// --- operator table
@@ -372,6 +372,14 @@ func runC13(seed uint64, n int, tier string, outDir string) []*Stats {
 	}
 	cf.AddCases("print_cases", "bool * expr * bytes", "check_print", items)
 	cf.AddCases("relex_cases", "bool * expr * bytes", "check_relex", items)
+	// the specification parser is slow under vm_compute: every third case (both modes of a grid tree alternate)
+	var third []string
+	for i, it := range items {
+		if i%3 == 0 {
+			third = append(third, it)
+		}
+	}
+	cf.AddCases("reparse_cases", "bool * expr * bytes", "check_reparse", third)
 
 	// --- glue streams through api.Transform
 	glue(r, st, n, tier, printed)
